@@ -11,6 +11,12 @@ CLAUSE = ("(RF-TAB) the data-unit table the multiplexer writes (insert_sliced_da
           "number does not exceed the last one never joins the current frame (only a continuing raw segment may); (RF-CORR) every "
           "failing exit of vbi_dvb_mux_cor after generate_pes_packet clears the pending-output window (cor_end), and vbi_dvb_mux_feed "
           "calls the output callback only after generate_pes_packet succeeded with the whole frame consumed.")
+CLAUSE = CLAUSE + (" In generate_pes_packet, once raw_samples_left was set from the caller's line length (before anything was "
+                   "copied into the multiplexer's own sample buffer) every path to an exit - the failing ones included - assigns "
+                   "it again (to 0 or to what was really saved): a rejected raw line leaves no claim on stale samples, so the "
+                   "multiplexer stays usable; on the demultiplexer side every constant offset read through the header pointer in "
+                   "the PES header validation is below the look-ahead the wrap-around buffer guarantees (PES_HEADER_LOOKAHEAD), "
+                   "so a header split across input chunks is judged on bytes that have arrived.")
 NOT_DECIDED = ("PES/TS header layout, PTS encoding, size rounding to 184 and stuffing arithmetic, that demux (mux (x)) == x as values, "
                "conformance to EN 300 472 / EN 301 775 beyond the table.")
 
@@ -61,6 +67,8 @@ def run(ctx, run):
     _frame_boundary(ctx, run, P.need("line_address", DEMUX))
     _cor_failure(ctx, run, P.need("vbi_dvb_mux_cor", MUX))
     _feed_callback(ctx, run, P.need("vbi_dvb_mux_feed", MUX))
+    _raw_left_consistent(ctx, run, P.need("generate_pes_packet", MUX))
+    _header_lookahead(ctx, run)
 
 
 def _store_idx(f, lhs, base_name):
@@ -369,3 +377,118 @@ def _assigned_from(f, operand, callee):
                 if r["k"] == "call" and r.get("callee") == callee:
                     return True
     return False
+
+
+def _raw_left_consistent(ctx, run, f):
+    run.touch(f)
+    FLD = "raw_samples_left"
+
+    def st(ff, i):
+        for lhs, var, op, rhs in flow.stores(ff, i):
+            if lhs is not None:
+                l = ff.exprs[ex.skip(ff, lhs)]
+                if l["k"] == "mem" and l["member"] == FLD:
+                    return True
+        return False
+    n = 0
+    for bid, i in flow.all_events(f):
+        e = f.exprs[i]
+        if e["k"] == "asg" and e["op"] == "=" and st(f, i):
+            c = ex.const(f, e["c"][1])
+            o = atoms.Operand(f, e["c"][1])
+            if c is not None or not o.fields:
+                continue            # only the store from the caller's sampling parameters (sp->...)
+            n += 1
+            ok, _ = atoms.must_pass(f, i, st)
+            key = "RF-CORR:generate_pes_packet:raw-left-settled"
+            if ok:
+                run.holds("RF-CORR", key, "after `%s` every path to an exit assigns raw_samples_left again" % ex.pretty(f, i)[:60], ex.loc(f, i))
+            else:
+                run.violation("RF-CORR", key, "a path from `%s` (the line length of the *caller's* buffer) reaches an exit without "
+                              "assigning raw_samples_left again: after a rejected raw line the multiplexer believes it has saved "
+                              "samples to continue with, and rejects every later frame until it is reset" % ex.pretty(f, i)[:70],
+                              ex.loc(f, i), witness={"function": f.name})
+    run.floor("raw_samples_left set from the caller's line", n, 1)
+
+
+def _max_read_offset(ctx, f, pname, depth=0):
+    """Largest constant offset read through pointer parameter `pname` in f and its callees
+    (None when there is none)."""
+    best = None
+
+    def is_p(node):
+        j = ex.skip(f, node)
+        e = f.exprs[j]
+        while e["k"] == "cast":
+            j = ex.skip(f, e["c"][0])
+            e = f.exprs[j]
+        return e["k"] == "ref" and e.get("name") == pname
+
+    def off(node):
+        """constant k when node is `p + k` / `p`"""
+        j = ex.skip(f, node)
+        e = f.exprs[j]
+        while e["k"] == "cast":
+            j = ex.skip(f, e["c"][0])
+            e = f.exprs[j]
+        if e["k"] == "ref" and e.get("name") == pname:
+            return 0
+        if e["k"] == "bin" and e["op"] == "+":
+            for x, y in ((e["c"][0], e["c"][1]), (e["c"][1], e["c"][0])):
+                k = ex.const(f, y)
+                if k is not None and is_p(x):
+                    return k
+        return None
+    for i, e in enumerate(f.exprs):
+        if e["k"] == "idx":
+            k0 = off(e["c"][0])
+            c = ex.const(f, e["c"][1])
+            if k0 is not None and c is not None:
+                best = max(best or 0, k0 + c)
+        elif e["k"] == "un" and e["op"] == "*":
+            k0 = off(e["c"][0])
+            if k0 is not None:
+                best = max(best or 0, k0)
+        elif e["k"] == "call" and e.get("callee") and depth < 3:
+            t = ctx.prog.func_for(f, e["callee"])
+            if t is None:
+                continue
+            for n, a in enumerate(e.get("c", [])):
+                k0 = off(a)
+                if k0 is not None and n < len(t.params):
+                    sub = _max_read_offset(ctx, t, t.params[n]["name"], depth + 1)
+                    if sub is not None:
+                        best = max(best or 0, k0 + sub)
+    return best
+
+
+def _header_lookahead(ctx, run):
+    P = ctx.prog
+    f = P.need("valid_vbi_pes_packet_header", DEMUX)
+    run.touch(f)
+    need = _max_read_offset(ctx, f, f.params[1]["name"])
+    if need is None:
+        raise AnalysisBroken("valid_vbi_pes_packet_header reads nothing through its header pointer")
+    # the look-ahead the PES wrap buffer is asked for between packets
+    vals = []
+    for g in P.funcs:
+        if g.file != DEMUX:
+            continue
+        for bid, i in flow.all_events(g):
+            e = g.exprs[i]
+            if e["k"] == "asg" and e["op"] == "=":
+                l = ex.pretty(g, e["c"][0])
+                c = ex.const(g, e["c"][1])
+                if l.endswith("pes_wrap.lookahead") and c is not None:
+                    vals.append((c, g, i))
+    if not vals:
+        raise AnalysisBroken("no constant look-ahead is stored into pes_wrap.lookahead")
+    c, g, i = min(vals, key=lambda x: x[0])
+    key = "RF-IVL:dvb_demux:pes-header-lookahead"
+    if c > need:
+        run.holds("RF-IVL", key, "the PES header validation reads up to byte %d of the header; the wrap-around buffer guarantees %d "
+                  "bytes of look-ahead" % (need, c), ex.loc(g, i))
+    else:
+        run.violation("RF-IVL", key, "the PES header validation reads byte %d of the header (the data_identifier) but only %d bytes of "
+                      "look-ahead are requested: when a chunk boundary falls inside the header the byte is read before it has "
+                      "arrived and the whole packet is discarded" % (need, c), ex.loc(g, i), witness={"max_offset": need, "lookahead": c})
